@@ -411,3 +411,97 @@ Proof.
     destruct (X d) as [E|(_ & N & f & E)]; rewrite E; [reflexivity|].
     rewrite N. reflexivity.
 Qed.
+
+Lemma exec_cx_clear t d e : get (exec t) d = Some e -> e_cx e = false.
+Proof.
+  rewrite get_exec. destruct (get t d) as [x|]; simpl; [|discriminate].
+  destruct (e_cx x) eqn:E; [discriminate|]. intros H. inversion H; subst. auto.
+Qed.
+
+(* every descriptor of the parent that is not the target of a mapping *)
+Definition others_cloexec (t0 : tbl) (us0 : list (option nat)) : Prop :=
+  forall d e, (length us0 <= d \/ (3 <= d /\ nth d us0 None = None)) ->
+              get t0 d = Some e -> e_cx e = true.
+
+Corollary child_no_other t0 us0 t' :
+  sources_open t0 us0 -> others_cloexec t0 us0 ->
+  child_init us0 None t0 = CExec t' ->
+  forall d, get t' d <> None -> d < length us0 /\ (d < 3 \/ nth d us0 None <> None).
+Proof.
+  intros Ho Hc He d Hd.
+  destruct (child_fds t0 us0 Ho) as (t2 & E & A & B).
+  rewrite He in E. inversion E; subst t2. clear E.
+  destruct (Nat.lt_ge_cases d (length us0)) as [L|G].
+  - split; auto. destruct (Nat.lt_ge_cases d 3) as [L3|G3]; auto. right.
+    intros Hn. apply Hd. rewrite (A d L). unfold child_slot. rewrite Hn.
+    destruct (Nat.ltb_spec d 3); [lia|].
+    destruct (get t0 d) as [e|] eqn:Eg; [|reflexivity].
+    simpl. rewrite (Hc d e); auto.
+  - exfalso. apply Hd. rewrite (B d G).
+    destruct (get t0 d) as [e|] eqn:Eg; [|reflexivity].
+    simpl. rewrite (Hc d e); auto.
+Qed.
+
+(* ------------------------------------------------------------------ *)
+(* E. the error pipe                                                    *)
+(* ------------------------------------------------------------------ *)
+Definition sc_ret (x : Z * tbl * option cres * option (option nat * Z) *
+                       option (option wans) * list wans) : Z :=
+  let '(r, _, _, _, _, _) := x in r.
+Definition sc_reaped (x : Z * tbl * option cres * option (option nat * Z) *
+                          option (option wans) * list wans) : option (option wans) :=
+  let '(_, _, _, _, r, _) := x in r.
+
+(* slot [w] is not written by the shuffle *)
+Definition untouched (us : list (option nat)) (w : nat) : Prop :=
+  length us <= w \/ (3 <= w /\ nth w us None = None).
+
+Lemma sources_open_alloc t us min f cx t' r :
+  alloc t min f cx = (t', r) -> sources_open t us -> sources_open t' us.
+Proof.
+  intros Ha Ho k u Hk. apply alloc_spec in Ha as (_ & B & _ & D & _).
+  specialize (Ho k u Hk). rewrite D; auto. intros ->. congruence.
+Qed.
+
+(* the table of a child that stops in uv__write_errno after a failed exec *)
+Lemma child_fail_table t0 us0 e w ew :
+  sources_open t0 us0 -> untouched us0 w -> get t0 w = Some ew ->
+  exists T, child_init us0 (Some e) t0 = CFail T (- e)%Z /\ get T w = Some ew.
+Proof.
+  intros Ho Hu Hw. destruct (shuffle_spec t0 us0 Ho) as (t1 & us1 & T & E1 & E2 & X & A & B).
+  unfold child_init. rewrite E1, E2. eexists. split; [reflexivity|].
+  destruct (Nat.lt_ge_cases w (length us0)) as [L|G].
+  - destruct Hu as [Hu|[H3 Hn]]; [lia|].
+    rewrite (B w L). unfold want. rewrite Hn. destruct (Nat.ltb_spec w 3); [lia|auto].
+  - rewrite (A w G). eapply ext_some; eauto.
+Qed.
+
+Theorem exec_failure_reported t us fresh e wo t1 rfd t2 wfd :
+  alloc t 0 fresh true = (t1, rfd) ->
+  alloc t1 0 (S fresh) true = (t2, wfd) ->
+  sources_open t us -> untouched us wfd ->
+  sc_ret (spawn_child t us fresh false false (Some e) wo) = (- e)%Z /\
+  sc_reaped (spawn_child t us fresh false false (Some e) wo) = Some (fst (wait_retry wo)).
+Proof.
+  intros A1 A2 Ho Hu. unfold spawn_child. rewrite A1, A2.
+  pose proof (sources_open_alloc _ _ _ _ _ _ _ A1 Ho) as Ho1.
+  pose proof (sources_open_alloc _ _ _ _ _ _ _ A2 Ho1) as Ho2.
+  pose proof A2 as A2'. apply alloc_spec in A2' as (_ & _ & C & _ & _).
+  destruct (child_fail_table t2 us e wfd _ Ho2 Hu C) as (T & E & G).
+  rewrite E, G. cbn [e_file]. rewrite Nat.eqb_refl.
+  destruct (wait_retry wo) as [a wo1]. split; reflexivity.
+Qed.
+
+(* without the hypothesis: 0,1,2 open, six slots, the error pipe lands on 3/4
+   and slot 4 is mapped: the parent sees success *)
+Lemma error_pipe_clobbered_witness :
+  let t := [Some (mkE 1 false); Some (mkE 2 false); Some (mkE 3 false)] in
+  let us := [Some 0; Some 1; Some 2; Some 0; Some 1; Some 2] in
+  sources_open t us /\
+  sc_ret (spawn_child t us 10 false false (Some 2%Z) []) = 0%Z.
+Proof.
+  cbv zeta. split; [|vm_compute; reflexivity].
+  intros k u Hk.
+  do 6 (destruct k as [|k]; [inversion Hk; subst; vm_compute; discriminate|]).
+  destruct k; discriminate.
+Qed.
